@@ -987,8 +987,14 @@ void runGrammarCase(int p, const std::vector<std::string> &batchStrings, const s
                 stat("cn_surrounding_whitespace_stripped:" + pn);
             }
             it.g = grammar(p, it.stripped);
-            if (it.g == G_ACCEPT && (posIsInt(p) ? refIntValue(it.stripped) : refRealValue(it.stripped)).outOfRange) {
-                // "converted ... or reported as out of range": the validator neither exposes the converted value nor words
+            if (it.g == G_ACCEPT && posIsInt(p) && refIntValue(it.stripped).outOfRange) {
+                // an e-notation exponent is an integer position: "converted to the corresponding int or reported as out
+                // of range".  No int is exposed for it, so a value that does not fit an int has ONE observable correct
+                // outcome: an issue (the validator words it like a format error, which is fine).
+                it.g = G_REJECT;
+                stat("integer_out_of_range_must_be_reported:" + pn);
+            } else if (it.g == G_ACCEPT && !posIsInt(p) && refRealValue(it.stripped).outOfRange) {
+                // "converted ... or reported as out of range": the validator neither exposes the converted double nor words
                 // its cn issue differently for range errors, so both outcomes are allowed; only exceptions are monitored.
                 it.g = G_UNDECIDED;
                 stat("cn_out_of_range_either_outcome_allowed:" + pn);
